@@ -28,7 +28,10 @@ REQUIRED = {t: {"with_zero_degree": 30, "with_repeated_pair": 30, "with_self_loo
 
 def gen_cases(tier, seed):
     n = 500 if tier == "quick" else 60000
-    return [{"seed": seed * 100183 + i, "nmax": 200 if i % 8 == 0 else 40} for i in range(n)]
+    cases = [{"seed": seed * 100183 + i, "nmax": 200 if i % 8 == 0 else 40} for i in range(n)]
+    if tier == "thorough":
+        cases.append({"kind": "repo-tests", "seed": seed, "_cost": 500})
+    return cases
 
 
 def make_edge_list(rng, res, nmax):
@@ -115,6 +118,14 @@ def check_reverse(res, net_snapshot, el2, N, ctx):
 
 def run_case(case):
     import gcmpy
+    if case.get("kind") == "repo-tests":
+        from ..repotests import run as _run_repo_tests
+        res = Result()
+        _run_repo_tests(ID, res)
+        res.nontrivial = True
+        res.digest = "repo-tests"
+        res.sample = {"kind": "repo-tests", "notes": res.notes[:2]}
+        return res
     res = Result()
     rng = random.Random(case["seed"])
     cfg, jds, el = make_edge_list(rng, res, case.get("nmax", 40))
